@@ -324,8 +324,28 @@ func c14(c *Ctx) {
 			realm := e.Principal.Realm
 			kvno := int(e.KVNO)
 			et := e.Key.KeyType
-			kind := c.R.Intn(8)
+			kind := c.R.Intn(10)
+			swapCase := func(x string) (string, bool) {
+				for i := 0; i < len(x); i++ {
+					if x[i] >= 'a' && x[i] <= 'z' {
+						return x[:i] + string(x[i]-32) + x[i+1:], true
+					}
+					if x[i] >= 'A' && x[i] <= 'Z' {
+						return x[:i] + string(x[i]+32) + x[i+1:], true
+					}
+				}
+				return x, false
+			}
 			switch kind {
+			case 8: // a component that differs only in the case of one letter is another principal
+				for ci := range names {
+					if y, ok := swapCase(names[ci]); ok {
+						names[ci] = y
+						break
+					}
+				}
+			case 9: // ... and so is a realm
+				realm, _ = swapCase(realm)
 			case 0:
 				kvno = 0
 			case 1:
